@@ -34,7 +34,7 @@ def dictcomp_hook(eng):
 
     def ev_DictComp(n, p):
         g = n.generators[0]
-        if len(n.generators) != 1 or g.ifs or not (isinstance(g.iter, ast.Call) and isinstance(g.iter.func, ast.Attribute) and g.iter.func.attr == "items" and not g.iter.args):
+        if len(n.generators) != 1 or not (isinstance(g.iter, ast.Call) and isinstance(g.iter.func, ast.Attribute) and g.iter.func.attr == "items" and not g.iter.args):
             raise OutOfSubset("dict comprehension form")
         for d, p1 in eng.ev(g.iter.func.value, p):
             if isinstance(d, SRec) and d.cls == "frozendict":
@@ -46,6 +46,17 @@ def dictcomp_hook(eng):
                 q = cur.fork()
                 q.frames.append({})
                 eng.assign(g.target, STup([eng.lift(key), val]), q)
+                keep = True
+                for cond in g.ifs:
+                    (cv, q), = list(eng.ev(cond, q))
+                    t = z3.simplify(eng.truth(cv))
+                    if not (z3.is_true(t) or z3.is_false(t)):
+                        raise OutOfSubset("dict comprehension filter that is not decided by the concrete keys")
+                    keep = keep and z3.is_true(t)
+                if not keep:
+                    q.frames.pop()
+                    cur = q
+                    continue
                 (kv, q1), = list(eng.ev(n.key, q))
                 (vv, q2), = list(eng.ev(n.value, q1))
                 if not isinstance(kv, SConc):
